@@ -72,6 +72,18 @@ def run(R):
                         fl_ = [n_ for n_ in field_names(e_[2][0]) if n_ in field_of.values()]
                         kty_ = re.sub(r'^.*Option<(.*)>$', r'\1', edt.get(fl_[-1], '')).rsplit('::', 1)[-1] if fl_ else None
                         seq.append((kty_, fl_[-1] if fl_ else None, flat_, flat_, bb_))
+        if not seq:
+            # .. or one `list.extend(details.<field>.map(IntoAny::into_any))` per kind, in program order: extend with an Option appends
+            # its value or nothing (std: Option is IntoIterator)
+            edt = {f_['n']: f_['ty'] for f_ in ty.adt('error_details::ErrorDetails')['variants'][0]['fields']}
+            for bb in sorted(se.live_blocks(), key=lambda x: (len(se.dominators().get(x, ())), x)):
+                t = se.term(bb)
+                if t['k'] == 'call' and t.get('name') == 'extend' and len(t['args']) == 2:
+                    e_ = strip_refs(mirlib.simplify(se.origin(t['args'][1])))
+                    if is_call(e_, name='map') and 'Option' in e_[1] and has_fn(e_[2][1], 'into_any'):
+                        fl_ = [n_ for n_ in field_names(e_[2][0]) if n_ in field_of.values()]
+                        kty_ = re.sub(r'^.*Option<(.*)>$', r'\1', edt.get(fl_[-1], '')).rsplit('::', 1)[-1] if fl_ else None
+                        seq.append((kty_, fl_[-1] if fl_ else None, True, True, bb))
         R.eq([k for k, f, g, p, bb in seq], kinds, 'C20.R1', 'set-encoder:order', site(se), 'kinds pushed by the set encoder, in order')
         for k, f, g, p, bb in seq:
             R.check(f == field_of.get(k) and g and p, 'C20.R1', 'set-encoder:%s' % k, site(se, bb), '%s::into_any(details.%s) guarded by Some: %r, pushed: %r (spec field %s)' % (k, f, g, p, field_of.get(k)))
@@ -180,7 +192,7 @@ def run(R):
                     R.check(okp, 'C20.R1', 'list-decoder:%s:pushed' % k, site(dc, r['bb']), 'decoded %s pushed to the list' % k)
             R.eq(sorted(x for x in seen if x), sorted(kinds), 'C20.R1', '%s:kinds' % label, site(dc), 'kinds recognised by the %s' % label)
             # iterates self.details in order
-            it = [t for bb, t in dc.calls(name='iter') if mentions_field(dc.origin(t['args'][0]), 'details')]
+            it = [t for bb, t in dc.calls() if t.get('name') in ('iter', 'into_iter') and t['args'] and mentions_field(dc.origin(t['args'][0]), 'details') and (t['name'] == 'iter' or '&' in str(t.get('self_ty') or t.get('ga') or ''))]
             it = [t for t in it if not const_table(ty, dc.origin(t['args'][0]))]
             R.check(len(it) == 1 and not dc.calls(name='filter') and not dc.calls(name='rev') and not dc.calls(name='skip'), 'C20.R1', '%s:iterates-all-in-order' % label, site(dc), 'iterates self.details.iter() without filtering/reordering')
         # (e) getters
@@ -246,7 +258,10 @@ def run(R):
             decty = dcs[0][1].get('self_ty') if dcs else None
             okd = len(dcs) == 1 and (decty or '').endswith('google_rpc::' + k) and mentions_field(fr.origin(dcs[0][1]['args'][0]), 'value')
             R.check(okd and decty == encty, 'C20.R2', 'from_any_ref:%s' % k, site(fr), 'decodes %s from any.value (encoder used %s)' % (decty, encty))
-            R.check(len(fr.calls(name='from_residual')) == 1 and not mirlib.panic_sites(fr), 'C20.R2', 'from_any_ref:%s:error-propagated' % k, site(fr), 'DecodeError propagated with ?, no panic site')
+            # `let x = decode(..)?; Ok(x.into())`, or the decoder's own Result mapped: `decode(..).map(Self::from)`
+            rt_ = mirlib.returned_terms(fr)
+            mapped = len(rt_) == 1 and is_call(strip_refs(rt_[0][1]), name='map') and 'Result' in strip_refs(rt_[0][1])[1] and is_call(strip_refs(strip_refs(rt_[0][1])[2][0]), name='decode')
+            R.check((len(fr.calls(name='from_residual')) == 1 or mapped) and not mirlib.panic_sites(fr), 'C20.R2', 'from_any_ref:%s:error-propagated' % k, site(fr), 'DecodeError propagated with ? (or the decoder\'s Result mapped), no panic site')
 
     # ---------------------------------------------------------------- R3 field agreement of From pairs
     R.describe('C20.R3', 'every From pair between a public detail struct and its generated prost message initialises each target field from the same-named source field')
@@ -386,7 +401,11 @@ def run(R):
         R.check(len(ag) == 1, 'C20.R4', 'gen:one-status', site(g), 'pb::Status aggregates in gen_details_bytes: %d' % len(ag))
         en = g.calls(name='encode')
         rt = mirlib.returned_terms(g)
-        R.check(len(en) == 1 and len(rt) == 1 and is_call(strip_refs(rt[0][1]), name='freeze'), 'C20.R4', 'gen:returns-encoding', site(g), 'returns the frozen buffer the status was encoded into')
+        frozen = len(en) == 1 and len(rt) == 1 and is_call(strip_refs(rt[0][1]), name='freeze')
+        # .. or Bytes::from(status.encode_to_vec())
+        ev_ = g.calls(name='encode_to_vec')
+        vec_form = len(ev_) == 1 and len(rt) == 1 and is_call(strip_refs(rt[0][1]), name='from') and 'Bytes' in strip_refs(rt[0][1])[1] + str(strip_refs(rt[0][1])[4].get('self_ty')) and is_call(strip_refs(strip_refs(rt[0][1])[2][0]), name='encode_to_vec')
+        R.check(frozen or vec_form, 'C20.R4', 'gen:returns-encoding', site(g), 'returns the frozen buffer the status was encoded into (or Bytes::from(encode_to_vec()))')
 
     # ---------------------------------------------------------------- R5 decode side is total
     R.describe('C20.R5', 'check_* propagate DecodeError with ?; get_* fall back to default / None; no panic site is reachable from the decoders and getters')
